@@ -10,46 +10,63 @@ class C23(Prop):
     shard = 40
     ready = True
     manifest = dict(
-        text="PARTIAL. Proved in Coq for all inputs: (a) the RTP glue of subStreamFormat.writeUnitInner/initialize (generic in "
-             "the packetizer): a unit is re-encoded iff an encoder existed or some incoming payload exceeds the maximum; the "
+        text="PARTIAL. Proved in Coq for all inputs: (a) the RTP glue of subStreamFormat.writeUnitInner/initialize, generic in "
+             "the packetizer: a unit is re-encoded iff an encoder existed or some incoming payload exceeds the maximum; the "
              "encoder created on the first oversized packet takes that packet's SSRC and sequence number and offset = its "
              "timestamp - uint32(PTS); forwarded packets are never oversized; an oversized packet of a format without encoder is "
-             "dropped with an error; every generated packet carries offset + uint32(PTS) mod 2^32 and the offset never changes; "
-             "(b) the RTP/H.264 packetizer of gortsplib (single NAL / STAP-A / FU-A) transliterated together with its decoder: "
-             "every payload <= PayloadMaxSize for every access unit (PayloadMaxSize >= 3), no failure, sequence numbers "
-             "consecutive mod 2^16 within and across units, one SSRC, and decode(encode au) = au for every access unit of "
-             "well-formed NAL units (per unit and for every sequence of units), composed through the glue. For the other 16 "
-             "formats (H.265, AV1, VP8, VP9, MPEG-4 Video, MPEG-1 Video, M-JPEG, Opus, MPEG-4 Audio, LATM, MPEG-1 Audio, AC-3, "
-             "G.711, LPCM, KLV, FLAC) and for a format without encoder there is NO theorem: the check evaluates the boolean form "
-             "of the property (size bound, consecutive sequence numbers, one SSRC, offset + PTS (+ per-packet audio increments), "
-             "decode(encode) = delivered payload with the format's real rtpDecoder, oversize trigger, passthrough untouched) "
-             "inside Coq on the packets the real code produced - differential testing only.",
-        note="Trusted: Coq kernel+VM, the in-package driver and fixture, the hand-written models (tied by correspondence: the "
-             "H.264 model must reproduce every observed packet and every observed decoder answer). The gortsplib packetizers "
-             "other than rtph264 are library code outside the proof. H.264 round trip needs well-formed NAL units (non-empty, "
-             "forbidden_zero_bit clear, type not 24..29, no start code inside; at most 50 NAL units / 8 MiB per unit): "
-             "C23_roundtrip_needs_forbidden_zero_bit shows the condition is necessary. Expected audio timestamp increments "
-             "inside one unit are computed by the driver from format constants.",
-        technique="Coq proof (induction over the access unit / fragment loop / STAP-A entries / unit sequence, finite sweeps for "
-                  "the bit-level header facts) + correspondence via vm_compute; differential testing for 16 formats")
+             "dropped with an error; and, for ANY encoder honouring a four-part contract (sequence numbers/SSRC, size under its "
+             "own precondition, a law for the timestamps it sets, round trip through its decoder), the generated packets fit the "
+             "maximum, are numbered consecutively mod 2^16 from the effective encoder's number with one SSRC, carry "
+             "offset + uint32(PTS) + the encoder's own per-packet offset mod 2^32, and give the unit back to a reader's decoder, "
+             "which is clean afterwards; (b) that contract for five packetizers of gortsplib transliterated with their decoders: "
+             "H.264 (single / STAP-A / FU-A, max >= 3), H.265 (single / aggregation packet / fragmentation unit with the "
+             "two-byte header, max >= 4, at most 21 NAL units per unit), Opus (rtpEncoderOpus over rtpsimpleaudio: one packet per "
+             "Opus packet, timestamps = running sum of opus.PacketDuration2; the size bound holds iff every Opus packet fits), "
+             "G.711 and LPCM (rtplpcm: sample-aligned splitting, packet i starts i*(max/sampleSize) samples later, precondition "
+             "0 < sampleSize <= max, otherwise division by zero). For the other 12 formats (AV1, VP8, VP9, MPEG-4 Video, MPEG-1 "
+             "Video, M-JPEG, MPEG-4 Audio, LATM, MPEG-1 Audio, AC-3, KLV, FLAC) and for a format without encoder there is NO "
+             "theorem: the check evaluates the boolean form of the property (size bound, consecutive sequence numbers, one SSRC, "
+             "offset + PTS (+ per-packet audio increments), decode(encode) = delivered payload with the format's real rtpDecoder, "
+             "oversize trigger, passthrough untouched) inside Coq on the packets the real code produced - differential only.",
+        note="Trusted: Coq kernel+VM, the in-package driver and fixture, the hand-written models (tied by correspondence: each of "
+             "the five models must reproduce every observed packet - sequence number, timestamp, marker, SSRC, payload - every "
+             "observed error/panic and every observed decoder answer). The gortsplib packetizers of the 12 other formats are "
+             "library code outside the proof. Round-trip preconditions: H.264 NAL units non-empty, forbidden_zero_bit clear, type "
+             "not 24..29, no start code inside, <= 50 NAL units / 8 MiB; H.265 NAL units with their two-byte header, type not "
+             "48..50, no start code inside, <= 21 NAL units / 8 MiB (the forbidden_zero_bit survives); Opus packets and sample "
+             "buffers non-empty. Known findings reported on every run: an Opus packet longer than the maximum goes out oversized "
+             "(RTP/Opus cannot fragment); conf.Validate has no lower bound for udpMaxPayloadSize (tiny values make the packetizers "
+             "divide by zero); the gortsplib AV1 encoder joins OBUs at a packet boundary. Expected audio timestamp increments of "
+             "the non-modelled audio formats are computed by the driver from format constants.",
+        technique="Coq proof (induction over the access unit / fragment loop / aggregation entries / sample loop / unit sequence, "
+                  "finite sweeps for the bit-level header facts, one generic glue development instantiated per packetizer) + "
+                  "correspondence via vm_compute for 5 formats; differential testing for 12 formats")
     rule = ("scenarios = one real streamFormat/subStreamFormat + maximum 16..1460 (65% 16..64 so that every boundary is hit with "
             "short payloads; 255..262; 1200..1460) + 1-4 units pushed through the real writeUnitInner, 60% as payloads (encoder "
             "created by initialize, random SSRC/sequence number/offset read back), 40% as RTP packets of a source encoder with "
             "a larger maximum (passthrough first, then the encoder is created on the first oversized packet; sequence numbers "
             "near 65535); PTS over 0, 2^31, 2^32 neighbours, negative, 63-bit. Sizes: max-3..max+3, k*(max-2)+-3, "
-            "k*max+-3, (max-3)/2, 1..4, random, 64 KiB / 128 KiB units. 40% H.264 (single, STAP-A, FU-A, mixed, outside the "
-            "round-trip precondition), 60% round-robin over the 17 other formats; 10 directed scenarios first (witnesses of the "
-            "findings, H.264 boundary ladders at max 16/100/1460). Non-trivial = at least one unit was re-encoded")
+            "k*max+-3, (max-3)/2, 1..4, random, 64 KiB / 128 KiB units. 25% H.264, 15% H.265 (single, aggregation, fragmentation, "
+            "mixed, outside the precondition: short NAL unit alone / inside an aggregation packet / after a fragmented unit, "
+            "types 48..50, start code, > 21 NAL units), 10% Opus (TOC codes 0..3, packet of exactly max, packet longer than max = "
+            "known finding), 10% G.711 (1-3 channels) / LPCM (8/16/24 bit x 1..8 channels, ragged ends, sample larger than the "
+            "maximum), 40% round-robin over all 18 formats; directed scenarios spread over the run (witnesses of the findings, "
+            "boundary ladders of H.264 / H.265 / LPCM at several maxima) and one configuration probe (real conf.Load on "
+            "udpMaxPayloadSize -5..5000). Non-trivial = at least one unit was re-encoded")
     trusted_base = ["Coq 8.16.1 kernel + VM (vm_compute for cases; primitive 63-bit integers only to ship byte strings compactly)",
                     "in-package Go driver zz_verif_c23*_test.go + fixture zz_verif_streamfx_test.go (package stream)",
-                    "models Model/C23_RtpGlue.v, Model/C23_RtpH264.v hand-written, tied by correspondence",
+                    "models Model/C23_RtpGlue.v, C23_RtpGlueInst.v, C23_RtpH264.v, C23_RtpH265.v, C23_RtpAudio.v hand-written, tied by "
+                    "correspondence",
                     "oracles shipped by the driver: delivered payload (C22's territory), result of the incoming rtpDecoder, "
-                    "availability of an encoder for the format, audio timestamp increments",
-                    "gortsplib packetizers/depacketizers of the 16 formats not modelled (differential only)"]
-    assumptions = ["PayloadMaxSize >= 3 (FU-A) and < 65536 (STAP-A size field); the configuration caps udpMaxPayloadSize at 1472 "
-                   "but has no lower bound (udpMaxPayloadSize <= 14 makes rtph264 divide by zero: outside this property)",
-                   "payloads handed to the encoders satisfy each encoder's documented precondition (non-empty elements, valid "
-                   "JPEG / MPEG audio / AC-3 headers): the generators only produce such payloads",
+                    "availability of an encoder for the format and maximum (observed on the real newRTPEncoder), audio timestamp "
+                    "increments of the non-modelled formats",
+                    "gortsplib packetizers/depacketizers of the 12 formats not modelled (differential only)"]
+    assumptions = ["PayloadMaxSize >= 3 (H.264) / >= 4 (H.265) / >= sample size (G.711, LPCM; enforced by newRTPEncoder since fix "
+                   "6728a85) and < 65536 (16-bit size fields); the configuration caps udpMaxPayloadSize at 1472 but has no lower "
+                   "bound (known finding conf/udpMaxPayloadSize-no-lower-bound: tiny values make the packetizers divide by zero)",
+                   "every Opus packet of a unit is at most the maximum (known finding opus/packet-larger-than-max otherwise)",
+                   "payloads handed to the non-modelled encoders satisfy each encoder's documented precondition (non-empty "
+                   "elements, valid JPEG / MPEG audio / AC-3 headers): the generators only produce such payloads",
                    "one RTP packet per incoming unit, as the RTSP and WebRTC publishers deliver them"]
 
 
